@@ -149,24 +149,30 @@ structure Supertraits where
   trailing : Bool := false
   deriving DecidableEq, Repr, Inhabited
 
+def unimockAttrOf (opts : Opts) (ind : TraitIndirection) (mode : InputMode) (fns : List TraitFn) : List Attr :=
+  if opts.unimockValue then
+    match unimockParams ind opts.mockApi mode fns with
+    | some ps => [exportGated opts.exportValue ps]
+    | none => []
+  else []
+
+def entraitAttrOf (depMode : DepMode) : List Attr :=
+  match depMode with
+  | .concrete _ => [entraitForTraitAttr]
+  | .generic => []
+
+def mockallAttrOf (opts : Opts) : List Attr :=
+  if opts.mockallValue then [exportGated opts.exportValue mockallPath] else []
+
+/-- the sub-attributes entrait re-applies to what it generates -/
+def reappliedSubs (subAttrs : List Attr) : List Attr :=
+  subAttrs.filter (fun a => a.subKind == .asyncTrait || a.subKind == .automock)
+
 /-- `TraitCodegen::gen_trait_def` -/
 def genTraitDef (opts : Opts) (ind : TraitIndirection) (depMode : DepMode) (subAttrs : List Attr)
     (vis : Toks) (ident : String) (tg : TraitGenerics) (sup : Supertraits)
     (fns : List TraitFn) (mode : InputMode) : GenTrait :=
-  let unimockAttr : List Attr :=
-    if opts.unimockValue then
-      match unimockParams ind opts.mockApi mode fns with
-      | some ps => [exportGated opts.exportValue ps]
-      | none => []
-    else []
-  let entraitAttr : List Attr :=
-    match depMode with
-    | .concrete _ => [entraitForTraitAttr]
-    | .generic => []
-  let mockallAttr : List Attr :=
-    if opts.mockallValue then [exportGated opts.exportValue mockallPath] else []
-  let subs := subAttrs.filter (fun a => a.subKind == .asyncTrait || a.subKind == .automock)
-  { attrs := unimockAttr ++ entraitAttr ++ mockallAttr ++ subs
+  { attrs := unimockAttrOf opts ind mode fns ++ entraitAttrOf depMode ++ mockallAttrOf opts ++ reappliedSubs subAttrs
     vis := traitVisibility mode vis
     ident := ident
     params := tg.params
